@@ -273,4 +273,21 @@ except TypeError:
 return raised
 """
     out.append(mk_case("c02.refuse.key_index_mix", [("t1", "int"), ("n", "int")], body, pre=["I64(t1, n)"]))
+    # one Data object queried with a series of freshly built (and dropped) combinations: what an earlier, now dead,
+    # combination computed on it must not be served to a later one (e.g. through an identity-keyed memo)
+    for did, doc in [("list", "[x, 0, 5]"), ("map", "{'a': x, 'c': 0}")]:
+        body = f"""
+doc = {doc}
+d = Data(doc)
+A, B, C = V('greater_than', t1), V('equal_to', 0), V('less_than', t2)
+ok = True
+for T in [('and', A, C), ('or', C, A), ('xor', ('or', C, A), B), ('and', ('xor', A, B), C), ('or', A, B)]:
+    ok = ok and same('Data.filter(fresh combination)', d.filter(build_cond(T)).result, ref_tree(T, doc))
+    ok = ok and same('fresh combination .filter(shared Data)', build_cond(T).filter(d).result, ref_tree(T, doc))
+spec = {{'xor': [{{'and': [{{'value.greater_than': t1}}, {{}}, {{'value.less_than': t2}}]}}, {{'value.equal_to': 0}}]}}
+ok = ok and same('spec list on the shared Data', ConditionLike.from_spec(spec).filter(d).result, ref_tree(('xor', ('and', A, C), B), doc))
+return ok
+"""
+        out.append(mk_case(f"c02.shared_data.{did}", [("t1", "int"), ("t2", "int"), ("x", "int")], body,
+                           pre=[f"BU({L}, t1, t2, x)"]))
     return out
